@@ -5,6 +5,7 @@ import (
 	"go/ast"
 	"go/token"
 	"go/types"
+	"sort"
 	"strings"
 
 	"golang.org/x/tools/go/types/typeutil"
@@ -18,6 +19,7 @@ func (a *Analyzer) Classify(rule string) {
 		c := &bodyCtx{a: a, l: l, info: l.Pkg.TypesInfo, locals: map[types.Object]bool{}}
 		c.walk(l.Body.List, "")
 		l.Effects = dedup(l.Effects)
+		a.loopCarriedReads(c)
 		// collected slices: what happens to them after the loop decides
 		for _, o := range uniqObjs(l.Collect) {
 			form, why := a.postUse(l, o)
@@ -30,6 +32,7 @@ func (a *Analyzer) Classify(rule string) {
 				l.Problem = append(l.Problem, "slice "+o.Name()+" collected in iteration order: "+why)
 			}
 		}
+		sort.Strings(l.Effects) // canonical: the signature does not depend on statement order
 		sig := strings.Join(l.Effects, ";")
 		construct := fmt.Sprintf("%s-loop:%s:%s", l.Kind, l.FnName, l.Ranged)
 		pos := a.pos(l.Stmt.Pos())
@@ -652,7 +655,6 @@ func (a *Analyzer) helperTotal(info *types.Info, fn *types.Func, call *ast.CallE
 	return okAll, why
 }
 
-
 // laterUnstableSort: after the canonical sort, a further *unstable* sort of the same slice with a
 // comparator that is not total reshuffles equal elements arbitrarily.
 func (a *Analyzer) laterUnstableSort(info *types.Info, body *ast.BlockStmt, after token.Pos, obj types.Object) string {
@@ -680,4 +682,84 @@ func (a *Analyzer) laterUnstableSort(info *types.Info, body *ast.BlockStmt, afte
 		return true
 	})
 	return why
+}
+
+// loopCarriedReads: a condition or right-hand side that reads a variable the loop itself modifies
+// (a collected slice, an accumulator, an assigned outer variable) sees a value that depends on how
+// many iterations ran before — that is, on the iteration order. Self-updates (xs = append(xs, e),
+// x = max(x, e), x += e) are the recognised forms and are not counted.
+func (a *Analyzer) loopCarriedReads(c *bodyCtx) {
+	l := c.l
+	written := map[types.Object]bool{}
+	ast.Inspect(l.Body, func(n ast.Node) bool {
+		switch s := n.(type) {
+		case *ast.AssignStmt:
+			for _, lhs := range s.Lhs {
+				if id, ok := lhs.(*ast.Ident); ok && id.Name != "_" {
+					if o := objOf(c.info, id); o != nil && !c.locals[o] && s.Tok != token.DEFINE {
+						written[o] = true
+					}
+				}
+			}
+		case *ast.IncDecStmt:
+			if id, ok := s.X.(*ast.Ident); ok {
+				if o := objOf(c.info, id); o != nil && !c.locals[o] {
+					written[o] = true
+				}
+			}
+		}
+		return true
+	})
+	if len(written) == 0 {
+		return
+	}
+	reported := map[types.Object]bool{}
+	var check func(e ast.Node, self types.Object)
+	check = func(e ast.Node, self types.Object) {
+		if e == nil {
+			return
+		}
+		ast.Inspect(e, func(n ast.Node) bool {
+			id, ok := n.(*ast.Ident)
+			if !ok {
+				return true
+			}
+			o := objOf(c.info, id)
+			if o != nil && written[o] && o != self && !reported[o] {
+				reported[o] = true
+				l.Effects = append(l.Effects, "reads-modified("+o.Name()+")")
+				l.Problem = append(l.Problem, "reads "+o.Name()+", which the loop itself modifies: the value seen depends on the iteration order ("+a.pos(id.Pos())+")")
+			}
+			return true
+		})
+	}
+	ast.Inspect(l.Body, func(n ast.Node) bool {
+		switch s := n.(type) {
+		case *ast.IfStmt:
+			check(s.Cond, nil)
+		case *ast.SwitchStmt:
+			check(s.Tag, nil)
+		case *ast.CaseClause:
+			for _, e := range s.List {
+				check(e, nil)
+			}
+		case *ast.AssignStmt:
+			for i, r := range s.Rhs {
+				var self types.Object
+				if i < len(s.Lhs) {
+					if id, ok := s.Lhs[i].(*ast.Ident); ok {
+						self = objOf(c.info, id)
+					}
+				}
+				check(r, self)
+			}
+		case *ast.ReturnStmt:
+			for _, r := range s.Results {
+				check(r, nil)
+			}
+		case *ast.ExprStmt:
+			check(s.X, nil)
+		}
+		return true
+	})
 }
